@@ -216,6 +216,41 @@ mut("c13-trie-nodes-skips-right-child", ["C13"], BR,
     "        yield from get_trie_nodes(db, left_child)\n    elif nodetype == LEAF_TYPE:",
     suite=False, note="get_trie_nodes forgets right subtrees")
 
+SMT = "trie/smt.py"
+mut("c14-delete-writes-blank", ["C14", "C15"], SMT,
+    "        return self.set(key, self._default)",
+    "        return self.set(key, b\"\")",
+    suite=True, note="delete stores a blank leaf instead of the configured default")
+mut("c14-from-db-forgets-default", ["C14"], SMT,
+    "        smt = cls(key_size=key_size, default=default)",
+    "        smt = cls(key_size=key_size)",
+    suite=None, note="a from_db handle deletes to blank although the tree has a non-blank default")
+mut("c14-set-swaps-children-at-leaf-level", ["C14"], SMT,
+    "            # Update\n            if path & target_bit:\n                node = sibling_node + node_hash",
+    "            # Update\n            if (path & target_bit) and target_bit != 1:\n                node = sibling_node + node_hash",
+    suite=False, note="the last level always places the updated leaf on the left")
+mut("c14-returned-hashes-include-root", ["C14", "C15"], SMT,
+    "        # updates need to be in root->leaf order, so flip back\n        return tuple(reversed(proof_update))",
+    "        # updates need to be in root->leaf order, so flip back\n        return (self.root_hash,) + tuple(reversed(proof_update))[:-1]",
+    suite=None, note="returned path hashes are shifted by one level")
+
+mut("c15-update-length-check-off-by-one", ["C15"], SMT,
+    "            if len(node_updates) <= branch_point:",
+    "            if len(node_updates) < branch_point:",
+    suite=True, note="a hash list exactly one too short is not refused with ValidationError")
+mut("c15-branch-point-last-bit-shifted", ["C15"], SMT,
+    "                    branch_point = (self._branch_size - 1) - bit\n",
+    "                    branch_point = (self._branch_size - 1) - max(bit, 1)\n",
+    suite=None, note="an update differing only in the last bit patches the wrong sibling")
+mut("c15-other-key-update-overwrites-value", ["C15"], SMT,
+    "            self._branch[branch_point] = node_updates[branch_point]\n",
+    "            self._branch[branch_point] = node_updates[branch_point]\n            if branch_point == self._branch_size - 1:\n                self._value = value\n",
+    suite=None, note="an update of the sibling leaf also replaces the tracked value")
+mut("c15-rejected-update-leaves-partial-effect", ["C15"], SMT,
+    "            if len(node_updates) <= branch_point:\n                raise ValidationError(\"Updated node list is not deep enough\")",
+    "            if len(node_updates) <= branch_point:\n                if node_updates:\n                    self._branch[0] = node_updates[0]\n                raise ValidationError(\"Updated node list is not deep enough\")",
+    suite=None, note="a rejected (too short) update still patches the first sibling")
+
 quiet("q-no-shortcircuit-delete-branch", ["C01", "C02", "C06"], HX,
       "        if encoded_sub_node == node[trie_key[0]]:\n            # If no change, (value already empty), short-circuit and skip any other work\n            return node\n\n        node[trie_key[0]] = encoded_sub_node",
       "        node[trie_key[0]] = encoded_sub_node",
@@ -227,6 +262,10 @@ quiet("q-exception-message", ["C01", "C05", "C06"], HX,
 quiet("q-frontier-cache-keeps-parent-entry", ["C09"], "trie/fog.py",
       "            self._cache.pop(Nibbles(node_prefix), None)\n\n        # add cache entry",
       "            pass\n\n        # add cache entry", note="not evicting the parent entry only wastes memory")
+
+quiet("q-smt-branch-of-blank-key-does-not-raise", ["C14", "C15"], "trie/smt.py",
+      "        value, branch = self._get(key)\n\n        # Ensure that it isn't blank!\n        if value == BLANK_NODE:\n            raise KeyError(\"Key does not exist\")\n\n        return branch",
+      "        value, branch = self._get(key)\n\n        return branch", note="what branch() does for an unreadable key is not stated")
 
 if __name__ == "__main__":
     here = os.path.dirname(os.path.abspath(__file__))
